@@ -215,10 +215,12 @@ def check (c):
             bad ('sources', 'source-answer', 'source on pulse %d with %r written as pulse %d, magnitude %r, phase %r degrees' % (s.idx + 1, v, p, mag, ph))
     # ---- loads per pulse
     mon ['loads'] = 1
-    want, got = {}, {}
+    want, got, wabs = {}, {}, {}
     for l in m.loads:
         for p in l.pulses:
-            want [p.idx] = want.get (p.idx, 0j) + complex (l.impedance (m.f, p))
+            z = complex (l.impedance (m.f, p))
+            want [p.idx] = want.get (p.idx, 0j) + z
+            wabs [p.idx] = wabs.get (p.idx, 0.0) + abs (z)
     for l in mb.loads:
         for p in l.pulses:
             got [p.idx] = got.get (p.idx, 0j) + complex (l.impedance (mb.f, p))
@@ -227,8 +229,16 @@ def check (c):
     if set (want) != set (got):
         bad ('loads', 'load-pulses', 'loaded pulses %s written as %s' % (sorted (x + 1 for x in want), sorted (x + 1 for x in got)))
     else:
+        w_  = 2 * np.pi * m.f * 1e6
+        amp_ = 1.0
+        for l in spec ['loads']:
+            # values are written with six digits; series / parallel resonant circuits amplify that
+            if l ['k'] == 'trap':
+                amp_ = max (amp_, 3.0 / max (abs (1 - w_ * w_ * l ['L'] * l ['C']), 1e-9))
+            elif l ['k'] == 'rlc' and l.get ('L') and l.get ('C'):
+                amp_ = max (amp_, 3.0 * (w_ * l ['L'] + 1 / (w_ * l ['C'])) / max (abs (complex (l.get ('R') or 0.0, w_ * l ['L'] - 1 / (w_ * l ['C']))), 1e-9))
         for i in want:
-            if abs (want [i] - got [i]) > 1e-4 * max (abs (want [i]), 1e-300) + 1e-9:
+            if abs (want [i] - got [i]) > 1e-4 * amp_ * max (wabs [i], 1e-300) + 1e-9:
                 bad ('loads', 'load-value', 'pulse %d: load %r written as %r' % (i + 1, want [i], got [i]))
     # ---- media
     mon ['media'] = 1
